@@ -13,7 +13,8 @@ Monitor shape: independent slow reference observed next to every execution.
 * proximity: project-and-clamp closest point on every triangle + min over all triangles; sign
   from the winding number (documented: inside positive, outside negative).
 
-Scale class (extent of the mesh: 1e-2, 1, 1e2) is part of every case tag and every key.
+Scale class (extent of the mesh: 1e-2, 1, 1e2) is part of every case tag and every key; meshes that
+contain zero-area faces carry `degenerate_faces` in the tag and `faces=degenerate` in the key.
 
 embree multi-hit advances the origin by `1e-4 * (100 / mesh.scale)` world units after each hit
 (ray_pyembree.py:165).  A later hit closer than that to the previous one cannot be found.  The
@@ -37,8 +38,11 @@ RULE = (
     "multi-body / nested / overlapping shells, icosphere, slabs, spike with a far vertex), normalised "
     "to extent S in {1e-2, 1, 1e2}, translated by 0 or 1e3, half of them rotated; per mesh: rays "
     "(origin inside bounds / outside / far / mesh behind; direction axis-aligned / oblique / aimed / "
-    "non-unit), containment points and proximity points (random, near vertex, near edge, near face, "
-    "far).  One case = one ray or one query point on one mesh; distinct = distinct (mesh bytes, query "
+    "non-unit / 50-2000 long / 1e-3 and 1e-7 short), containment points and proximity points (random, "
+    "near vertex, near edge, near face, far).  40 % of the meshes are asked again after a query - vertex "
+    "edit history (the first read after the edit is one of rays / contains / on_surface / closest_point / "
+    "closest_point_naive / signed_distance / nearby_faces); 30 % are asked again with 1-3 zero-area faces "
+    "(repeated index, point, collinear, duplicated vertex) inserted into the face list.  One case = one ray or one query point on one mesh; distinct = distinct (mesh bytes, query "
     "bytes); non-trivial = the ray crosses the mesh's bounding box / the point is judged against "
     ">= 1 triangle after the general-position filter."
 )
@@ -109,8 +113,10 @@ class MeshCase:
     judge every answer against the geometry the object has now.
     """
 
-    def __init__(self, tag, V, F, S, off, rot=None, edit=None):
+    def __init__(self, tag, V, F, S, off, rot=None, edit=None, degen=None):
         self.tag = tag
+        # kinds of zero-area faces that were put into F (see with_degenerate_faces); None: none
+        self.degen = tuple(degen) if degen else None
         self.V = np.asarray(V, dtype=np.float64)
         self.F = np.asarray(F, dtype=np.int64)
         self.S = float(S)
@@ -194,18 +200,20 @@ class MeshCase:
         return {
             "tag": self.tag, "V": self.V.tolist(), "F": self.F.tolist(), "S": self.S,
             "off": self.off, "rot": None if self.rot is None else self.rot.tolist(), "edit": self.edit,
+            "degen": None if self.degen is None else list(self.degen),
         }
 
     @staticmethod
     def from_dict(d):
-        return MeshCase(d["tag"], d["V"], d["F"], d["S"], d["off"], d.get("rot"), d.get("edit"))
+        return MeshCase(d["tag"], d["V"], d["F"], d["S"], d["off"], d.get("rot"), d.get("edit"), d.get("degen"))
 
     @property
     def sl(self):
         return slabel(self.S)
 
     def cls(self):
-        return "S=%s:off=%s%s" % (self.sl, olabel(self.off), "" if self.edit is None else ":after_" + self.edit["kind"])
+        return "S=%s:off=%s%s%s" % (self.sl, olabel(self.off), "" if self.edit is None else ":after_" + self.edit["kind"],
+                                    ":degenerate_faces" if self.degen else "")
 
 
 EDITS = (
@@ -218,7 +226,7 @@ EDITS = (
 
 
 FIRST = ("rays", "contains", "proximity:on_surface", "proximity:closest_point", "proximity:closest_point",
-         "proximity:closest_point_naive")
+         "proximity:closest_point_naive", "proximity:signed_distance", "proximity:nearby_faces")
 
 
 def random_edit(rng):
@@ -275,6 +283,59 @@ def random_rotation(rng):
     )
 
 
+def zero_area_faces(T):
+    """Faces whose height is below 1e-8 of their longest edge (same test as the oracle's)."""
+    A, B, C = T[:, 0], T[:, 1], T[:, 2]
+    N = np.cross(B - A, C - A)
+    L2 = np.maximum(((B - A) ** 2).sum(-1), np.maximum(((C - B) ** 2).sum(-1), ((A - C) ** 2).sum(-1)))
+    return (N * N).sum(-1) <= 1e-16 * L2 * L2
+
+
+def noise_normal_faces(T):
+    """
+    Zero-area faces whose cross product is rounding noise ABOVE a tenth of the library's zero
+    threshold (util.TOL_ZERO = 1e-13): Trimesh.face_normals documents their normal as "zero or an
+    arbitrary vector".  Generators keep a 10x gap to that constant: such meshes are not judged.
+    """
+    A, B, C = T[:, 0], T[:, 1], T[:, 2]
+    n1 = np.linalg.norm(np.cross(B - A, C - A), axis=1)
+    n2 = np.linalg.norm(np.cross(B - A, C - B), axis=1)
+    return zero_area_faces(T) & (np.maximum(n1, n2) > 1e-14)
+
+
+def with_degenerate_faces(rng, V, F, collinear=True):
+    """
+    The same surface with 1-3 zero-area faces put INTO the face list (the first one in the first
+    half, so most faces come after it): a face with a repeated index, a face that is one vertex
+    three times, three distinct collinear vertices (a new vertex on the midpoint of an edge) and a
+    face through a duplicated (coincident, differently numbered) vertex.  Legal input: loading
+    keeps such faces unless validate=True.  They have no interior, so no ray crosses one, the
+    winding number ignores them, and their closest point is the closest point of a segment.
+    Returns V, F, kinds.
+    """
+    V = np.asarray(V, dtype=np.float64)
+    F = [list(map(int, f)) for f in np.asarray(F)]
+    n0 = len(F)
+    kinds = []
+    for j in range(int(rng.integers(1, 4))):
+        a, b, c = F[int(rng.integers(len(F)))]
+        kind = ("repeated_index", "point", "duplicate_vertex", "collinear")[int(rng.integers(4 if collinear else 3))]
+        if kind == "repeated_index":
+            face = [[a, a, b], [a, b, a], [b, a, a]][int(rng.integers(3))]
+        elif kind == "point":
+            face = [a, a, a]
+        elif kind == "collinear":
+            V = np.vstack([V, (V[a] + V[b]) / 2.0])
+            face = [a, len(V) - 1, b]
+        else:
+            V = np.vstack([V, V[a]])
+            face = [a, len(V) - 1, c]
+        at = int(rng.integers(0, n0 // 2 + 1)) if j == 0 else int(rng.integers(0, len(F) + 1))
+        F.insert(at, face)
+        kinds.append(kind)
+    return V, np.array(F, dtype=np.int64), tuple(sorted(set(kinds)))
+
+
 # meshes that are not the boundary of a solid with winding number in {0,1} everywhere
 NOT_SOLID = ("overlapping_shells",)
 # meshes whose sliver triangles put closest_point's absolute tol.zero comparisons within
@@ -284,6 +345,34 @@ RAYS_ONLY = ("thin_slab",)
 
 # ------------------------------------------------------------------------------------------
 # helpers
+
+
+# keys that are already classed by their mechanism (embree origin advance: by the gap; direction
+# length of the native engine: by the ray class): a zero-area face elsewhere in the mesh has no
+# part in them
+_ADVANCE_KEYS = ("gap=below_offset", "gap=tight", "sym=stuck_on_triangle", "class=origin_clip_dirlen_gt1",
+                 "class=parallel_test_dirlen_lt1")
+
+
+class _DegenerateClassRun:
+    """`run` for a mesh that contains zero-area faces: the input class goes into every key."""
+
+    def __init__(self, run):
+        self._run = run
+
+    def __getattr__(self, name):
+        return getattr(self._run, name)
+
+    def violation(self, key, what, case=None):
+        if not any(k in key for k in _ADVANCE_KEYS):
+            key = key + " faces=degenerate"
+        self._run.violation(key, what, case)
+
+
+def _classed(run, mc):
+    if mc.degen and not isinstance(run, _DegenerateClassRun):
+        return _DegenerateClassRun(run)
+    return run
 
 
 def _exc_key(where, mc, e):
@@ -338,8 +427,18 @@ def make_rays(rng, mesh, S, n, T=None):
     shared = (tri[int(rng.integers(len(tri)))] * w[:, None]).sum(axis=0)
     for i in range(n):
         target = lo + (0.02 + 0.96 * rng.random(3)) * (hi - lo)
-        r = int(rng.integers(0, 10))
-        if r < 2:
+        r = int(rng.integers(0, 11))
+        if r == 10:
+            # a direction vector far shorter than 1 (difference of two nearby points, a velocity
+            # in small units): the same ray as its unit direction
+            if rng.random() < 0.35:
+                d = np.zeros(3)
+                d[int(rng.integers(3))] = 1.0 if rng.random() < 0.5 else -1.0
+            else:
+                d = R.unit(rng.normal(size=3))
+            d = d * float(rng.choice([1e-3, 1e-7]))
+            dcl = "short"
+        elif r < 2:
             d = np.zeros(3)
             d[int(rng.integers(3))] = 1.0 if rng.random() < 0.5 else -1.0
             dcl = "axis"
@@ -399,6 +498,7 @@ def _group(iray, itri, loc=None):
 def check_rays(run, mc, mesh, T, O, D, oc=None, dc=None, engines=None, record=True):
     import trimesh.ray.ray_triangle as rt
 
+    run = _classed(run, mc)
     S = mc.S
     m = len(O)
     oc = oc or ["replay"] * m
@@ -512,11 +612,24 @@ def check_rays(run, mc, mesh, T, O, D, oc=None, dc=None, engines=None, record=Tr
             clip = ename == "native" and dlen[i] > 1.0 and len(ts) and ts[0] <= 10 * 1e-5 * dlen[i]
             if clip:
                 run.count("rays_in_origin_clip_class")
+            # planes_lines calls a ray parallel to a plane when |direction . normal| <= 1e-5 with the
+            # direction AS GIVEN: with |d| < 1 a crossing at cos(angle) <= 1e-5/|d| is dropped.  Class
+            # from that constant with a 10x band: some crossing ahead has |d|*|cos| <= 1e-4.
+            par = bool(ename == "native" and dlen[i] < 1.0 and len(idx)
+                       and dlen[i] * float(np.abs(tab["dn"][i, idx]).min()) <= 10 * 1e-5)
+            if par:
+                run.count("rays_in_short_direction_parallel_class")
+            elif ename == "native" and dlen[i] < 1e-2 and len(idx):
+                run.count("rays_short_direction_judged_strictly")
 
-            def viol(key, what, case, _clip=clip):
+            def viol(key, what, case, _clip=clip, _par=par):
                 if _clip:
                     key = "ray engine=native class=origin_clip_dirlen_gt1 sym=lost_or_wrong_hit scale=%s" % mc.sl
                     what = "a crossing nearer to the origin than buffer_dist*|direction| is dropped by ray_bounds"
+                elif _par:
+                    key = "ray engine=native class=parallel_test_dirlen_lt1 sym=lost_or_wrong_hit scale=%s" % mc.sl
+                    what = ("a crossing is dropped as parallel because |direction . normal| <= 1e-5 is tested with "
+                            "the un-normalised direction (length < 1)")
                 run.violation(key, what, case)
 
             def judge_set(op, got):
@@ -647,7 +760,10 @@ def make_points(rng, mesh, T, S, n):
     c = (lo + hi) / 2
     P = np.zeros((n, 3))
     pc = []
-    Nn, _ = R.tri_normals(T)
+    with np.errstate(divide="ignore", invalid="ignore"):
+        Nn, L2 = R.tri_normals(T)
+    # faces with a normal (a zero-area face has no "above" and "below")
+    proper = np.nonzero(L2 > 1e-9 * S * S)[0]
     for i in range(n):
         r = int(rng.integers(0, 12))
         if r < 4:
@@ -666,7 +782,7 @@ def make_points(rng, mesh, T, S, n):
             P[i] = a + s * (b - a) + R.unit(rng.normal(size=3)) * S * float(rng.choice([0.004, 0.03, 0.2]))
             pc.append("near_edge")
         elif r < 11:
-            f = int(rng.integers(len(T)))
+            f = int(proper[int(rng.integers(len(proper)))])
             w = rng.dirichlet([1.5, 1.5, 1.5])
             sign = 1.0 if rng.random() < 0.5 else -1.0
             P[i] = w @ T[f] + sign * Nn[f] * S * float(rng.choice([0.003, 0.02, 0.15]))
@@ -680,6 +796,7 @@ def make_points(rng, mesh, T, S, n):
 def check_contains(run, mc, mesh, T, P, pc=None, engines=None, record=True):
     from trimesh.ray import ray_util
 
+    run = _classed(run, mc)
     S = mc.S
     n = len(P)
     pc = pc or ["replay"] * n
@@ -751,6 +868,7 @@ def check_proximity(run, mc, mesh, T, P, pc=None, record=True, judge_sign=True):
     from trimesh import proximity
     from trimesh import triangles as tri_mod
 
+    run = _classed(run, mc)
     S = mc.S
     n = len(P)
     pc = pc or ["replay"] * n
@@ -803,6 +921,11 @@ def check_proximity(run, mc, mesh, T, P, pc=None, record=True, judge_sign=True):
             if not (0 <= tid[k] < len(T)):
                 run.violation("proximity fn=%s sym=triangle_index_out_of_range scale=%s" % (fn, mc.sl), "triangle id out of range", wit(i, fn, int(tid[k]), int(arg[i])))
                 continue
+            if not (np.isfinite(dist[k]) and np.isfinite(cp[k]).all()):
+                run.violation("proximity fn=%s sym=not_finite scale=%s" % (fn, mc.sl),
+                              "closest point / distance is nan or inf",
+                              wit(i, fn, {"point": cp[k].tolist(), "distance": float(dist[k]), "tid": int(tid[k])}, float(dmin[i])))
+                continue
             if abs(dist[k] - dmin[i]) > tol:
                 sym = "distance_too_large" if dist[k] > dmin[i] else "distance_too_small"
                 run.violation("proximity fn=%s sym=%s scale=%s" % (fn, sym, mc.sl),
@@ -829,6 +952,15 @@ def check_proximity(run, mc, mesh, T, P, pc=None, record=True, judge_sign=True):
         ("closest_point_naive", lambda q: proximity.closest_point_naive(mesh, q), allsel[: max(1, min(n, 30))]),
     ]
     first = (mc.edit or {}).get("first", "")
+    # history case: the function named by `first` is the first thing to touch the edited mesh;
+    # its answer is kept and judged further down where that function is judged
+    pre = {}
+    if first == "proximity:nearby_faces" or (first == "proximity:signed_distance" and judge_sign):
+        try:
+            pre[first] = (mesh.nearest.signed_distance(P.copy()) if first.endswith("signed_distance")
+                          else proximity.nearby_faces(mesh, P.copy()))
+        except Exception as e:  # noqa
+            pre[first] = e
     if first.startswith("proximity:"):
         # history case: this function is the first thing to touch the edited mesh
         routes.sort(key=lambda r: r[0] != first.split(":", 1)[1])
@@ -844,7 +976,11 @@ def check_proximity(run, mc, mesh, T, P, pc=None, record=True, judge_sign=True):
 
     # candidate faces: the documented guarantee is that the closest face is among them
     try:
-        cands = proximity.nearby_faces(mesh, P.copy())
+        cands = pre.get("proximity:nearby_faces")
+        if isinstance(cands, Exception):
+            raise cands
+        if cands is None:
+            cands = proximity.nearby_faces(mesh, P.copy())
         for i in range(n):
             c = list(cands[i])
             run.count("proximity_candidates_returned", len(c))
@@ -877,7 +1013,10 @@ def check_proximity(run, mc, mesh, T, P, pc=None, record=True, judge_sign=True):
     # signed distance
     if judge_sign:
         try:
-            sd = np.asarray(mesh.nearest.signed_distance(P.copy()))
+            sd = pre.get("proximity:signed_distance")
+            if isinstance(sd, Exception):
+                raise sd
+            sd = np.asarray(mesh.nearest.signed_distance(P.copy()) if sd is None else sd)
         except Exception as e:  # noqa
             run.violation(_exc_key("proximity fn=signed_distance", mc, e), "signed_distance raised %r" % (e,), wit_all("signed_distance", e))
             sd = None
@@ -892,6 +1031,16 @@ def check_proximity(run, mc, mesh, T, P, pc=None, record=True, judge_sign=True):
                 if ambiguous[i]:
                     continue
                 run.count("signed_distance_checked")
+                if not np.isfinite(sd[i]):
+                    run.violation("proximity fn=signed_distance sym=not_finite scale=%s" % mc.sl,
+                                  "signed distance is nan or inf", wit(i, "signed_distance", float(sd[i]), float(dmin[i])))
+                    continue
+                if sd[i] == 0.0 and dmin[i] > 10 * 1e-8 and dmin[i] > tol:
+                    # (tol.merge = 1e-8: the documented "on the surface" band)
+                    run.violation("proximity fn=signed_distance sym=zero_off_surface scale=%s" % mc.sl,
+                                  "signed distance is exactly 0 for a point that is not on the surface",
+                                  wit(i, "signed_distance", float(sd[i]), float(dmin[i])))
+                    continue
                 if abs(abs(sd[i]) - dmin[i]) > tol:
                     run.violation("proximity fn=signed_distance sym=magnitude scale=%s" % mc.sl,
                                   "|signed distance| is not the minimum distance over all triangles",
@@ -929,14 +1078,23 @@ def check_proximity(run, mc, mesh, T, P, pc=None, record=True, judge_sign=True):
     want_q, want_d, want_r = R.closest_pairs(TT, PP)
     got_d = np.linalg.norm(q - PP, axis=1)
     off = R.point_triangle_distance(TT, q)
+    flat = zero_area_faces(TT)
     for j in range(len(PP)):
+        if flat[j]:
+            # the statement is about queries on a mesh: what the row-wise helper returns for a
+            # zero-area triangle is judged through closest_point / closest_point_naive / on_surface
+            run.skip("row-wise triangles.closest_point on a zero-area triangle: judged through the mesh queries only")
+            continue
         run.count("triangle_pairs_checked")
         run.state("pair_region", R.REGIONS[int(want_r[j])])
         w = {"check": "pair", "mesh": mdict, "triangle": TT[j].tolist(), "point": PP[j].tolist(),
              "observed": q[j].tolist(), "expected": want_q[j].tolist(), "region": R.REGIONS[int(want_r[j])]}
         if record:
             run.case("pair:%s:%s" % (R.REGIONS[int(want_r[j])], mc.cls()), TT[j], PP[j])
-        if got_d[j] > want_d[j] + tol:
+        if not np.isfinite(q[j]).all():
+            run.violation("triangles.closest_point sym=not_finite scale=%s" % mc.sl,
+                          "returned point is nan or inf", w)
+        elif got_d[j] > want_d[j] + tol:
             run.violation("triangles.closest_point sym=not_closest scale=%s" % mc.sl,
                           "returned point is farther from the query than the closest point of the triangle", w)
         elif off[j] > tol:
@@ -947,7 +1105,7 @@ def check_proximity(run, mc, mesh, T, P, pc=None, record=True, judge_sign=True):
 # ------------------------------------------------------------------------------------------
 
 
-def run_mesh_case(run, mc, n_rays, n_pts, history=None):
+def run_mesh_case(run, mc, n_rays, n_pts, history=None, degenerate=None):
     rng = run.rng
     if history is None:
         history = rng.random() < 0.4
@@ -955,6 +1113,9 @@ def run_mesh_case(run, mc, n_rays, n_pts, history=None):
         mesh, T = mc.build()
     except Exception as e:  # noqa
         run.inconclusive("could not build mesh %s: %r" % (mc.tag, e))
+        return
+    if mc.degen and noise_normal_faces(T).any():
+        run.skip("mesh with a zero-area face whose cross product is rounding noise near util.TOL_ZERO (normal documented as arbitrary): not judged")
         return
     run.count("mesh_cases")
     run.state("mesh_class", (mc.tag, mc.sl, olabel(mc.off), mc.rot is not None))
@@ -983,10 +1144,23 @@ def run_mesh_case(run, mc, n_rays, n_pts, history=None):
     for step in ((rays, points) if first == "rays" else (points, rays)):
         step()
     if mc.edit is None and history:
-        mh = MeshCase(mc.tag, mc.V, mc.F, mc.S, mc.off, mc.rot, edit=random_edit(rng))
+        mh = MeshCase(mc.tag, mc.V, mc.F, mc.S, mc.off, mc.rot, edit=random_edit(rng), degen=mc.degen)
         run.count("edited_mesh_histories")
         run.state("edit_history", (mh.edit["kind"], mh.edit["amount"], mh.edit["first"]))
         run_mesh_case(run, mh, max(20, n_rays // 2), max(16, n_pts // 2), history=False)
+    if mc.edit is None and not mc.degen and (degenerate if degenerate is not None else rng.random() < 0.3):
+        # the same surface with zero-area faces inside the face list: every answer must be the
+        # one of the surface, with the face numbering of THIS face list
+        for collinear in (True, False):
+            V2, F2, kinds = with_degenerate_faces(rng, mc.V, mc.F, collinear=collinear)
+            md = MeshCase(mc.tag, V2, F2, mc.S, mc.off, mc.rot, degen=kinds)
+            if not noise_normal_faces(md.vertices()[md.F]).any():
+                break
+            # (collinear up to rounding only: at extent 1e2 or 1e3 from the origin the cross
+            #  product of such a face is noise of the size of the library's zero threshold)
+        run.count("meshes_with_degenerate_faces")
+        run.state("degenerate_face_kinds", kinds)
+        run_mesh_case(run, md, max(30, n_rays // 2), max(16, n_pts // 2), history=rng.random() < 0.25)
 
 
 def workload(run):
